@@ -21,11 +21,22 @@ CHECKS = {
                 technique="Coq proof (lia) over constants translated from the source + correspondence"),
 }
 
+CHECKS["C14"] = dict(engine="jets", category="proof", design_ref="DESIGN.md §5 C14",
+    text="All jet tables (368 Core, 471 Elements, 428 Bitcoin), the C tables of libsimplicity and all 593 extern items are "
+         "regenerated into Coq from the Rust and C sources on every run (translator); round trip, decode completeness, "
+         "prefix-freeness, name parsing, Rust = C (cmr, types, cost, C decoder), Core inside Elements, FFI arity/parameter "
+         "types are theorems proved by vm_compute over the complete finite tables (lifted with forallb_forall); the "
+         "translator is validated against the compiled library jet by jet; every Core/Elements jet is executed once (a test).",
+    note="Trusted: Coq kernel + vm_compute, translator tools/xlate_jets*.py (fails closed), harness. Bitcoin family: codes, "
+         "names, type names only. Return-type/static width mismatches of three FFI items are tolerated by name and reported.",
+    technique="Coq proof by computation over tables translated from the Rust and C sources")
+
 NOT_YET = {}
 
 ENGINES = [
     dict(name="bits", path="coq/Bits", serves_properties=["C13"], kind_free_text="Coq model + proofs of bit reader/writer/natural code"),
     dict(name="budget", path="coq/Budget", serves_properties=["C19"], kind_free_text="Coq model + proofs of budget/padding arithmetic over translated constants"),
+    dict(name="jets", path="coq/Jets", serves_properties=["C14"], kind_free_text="translated jet/FFI tables + Coq proofs by computation"),
 ]
 
 
